@@ -64,6 +64,7 @@ pub(super) struct TerminateGuard<E: 'static>(Arc<State<E>>);
 
 impl<E: 'static> Drop for TerminateGuard<E> {
     fn drop(&mut self) {
+        #[cfg(feature = "verif")] crate::verif::event("tgd", Arc::as_ptr(&self.0) as usize, 0);
         self.state().terminated.send();
     }
 }
@@ -80,6 +81,7 @@ impl<E: 'static> TerminateGuard<E> {
     /// It has a side effect of canceling the scope.
     pub(super) fn set_err(&self, err: OrPanic<E>) {
         let mut m = self.0.err.lock().unwrap();
+        #[cfg(feature = "verif")] crate::verif::event("seterr_enter", Arc::as_ptr(&self.0) as usize, matches!(err, OrPanic::Panic) as usize);
         match (&*m, &err) {
             // Panic overrides an error, but error doesn't override an error.
             (Some(OrPanic::Panic), _) | (Some(OrPanic::Err(_)), OrPanic::Err(_)) => return,
@@ -87,6 +89,7 @@ impl<E: 'static> TerminateGuard<E> {
         }
         self.0.ctx.cancel();
         *m = Some(err);
+        #[cfg(feature = "verif")] crate::verif::event("seterr_stored", Arc::as_ptr(&self.0) as usize, 0);
     }
 }
 
@@ -98,6 +101,7 @@ pub(super) struct CancelGuard<E: 'static>(Arc<TerminateGuard<E>>);
 
 impl<E: 'static> Drop for CancelGuard<E> {
     fn drop(&mut self) {
+        #[cfg(feature = "verif")] crate::verif::event("cgd", Arc::as_ptr(self.terminate_guard().state()) as usize, 0);
         self.terminate_guard().state().ctx.cancel();
     }
 }
